@@ -7,7 +7,9 @@ import (
 	"encoding/binary"
 	"errors"
 	"fmt"
+	"runtime"
 	"runtime/debug"
+	"sort"
 	"strings"
 	"time"
 
@@ -190,7 +192,7 @@ func (c *Chain) Prepare(prop int, h int64, t time.Time, reqs *Requests) ([][]byt
 	n.EL.SetNext(reqs)
 	n.EL.SetPhase("prepare")
 	req := &abci.RequestPrepareProposal{MaxTxBytes: 4 << 20, Height: h, Time: t, ProposerAddress: c.W.Vals[prop].Cons}
-	pp, err := n.App.PrepareProposal(req)
+	pp, err := n.prepareWatched(req)
 	if err != nil {
 		return nil, err
 	}
@@ -198,7 +200,7 @@ func (c *Chain) Prepare(prop int, h int64, t time.Time, reqs *Requests) ([][]byt
 	// over the unix socket can exceed it although nothing was injected: retry as CometBFT's next round would
 	for retry := 0; retry < 3 && len(pp.Txs) == 0 && !n.EL.HasFaults(); retry++ {
 		time.Sleep(100 * time.Millisecond)
-		if pp, err = n.App.PrepareProposal(req); err != nil {
+		if pp, err = n.prepareWatched(req); err != nil {
 			return nil, err
 		}
 	}
@@ -244,6 +246,11 @@ func (c *Chain) Step(o StepOpts) (*Block, error) {
 
 	txs, err := c.Prepare(prop, h, t, o.Reqs)
 	if err != nil {
+		var st *ErrStuck
+		if errors.As(err, &st) {
+			// the honest proposer never finishes building its block: for the network that is a proposal nobody can accept
+			return nil, &ErrRejected{Height: h, Node: prop, Err: err}
+		}
 		return nil, fmt.Errorf("prepare h=%d: %w", h, err)
 	}
 	if len(c.injected) > 0 {
@@ -542,4 +549,89 @@ func (c *Chain) whyRejected(i int, txs [][]byte) error {
 		}
 	}
 	return fmt.Errorf("no single transaction is refused in check mode (%d txs)", len(txs))
+}
+
+// ErrStuck reports that an ABCI call made no progress: it had not returned after a long wait, and two observations of
+// the goroutines working for it, seconds apart, were identical (all blocked at the same places). The node is unusable
+// afterwards (the call still holds whatever it holds).
+type ErrStuck struct {
+	Call   string
+	Stacks string
+}
+
+func (e *ErrStuck) Error() string {
+	return fmt.Sprintf("%s makes no progress (goroutines blocked at the same places in two observations 5 s apart):\n%s", e.Call, e.Stacks)
+}
+
+// prepareWatched calls PrepareProposal and watches for a call that never returns. The proposer's own deadline for its engine
+// calls is 1.2 s; a call that is still running after 30 s is looked at twice, 5 s apart: only if the goroutines working
+// for it have not moved at all is it reported as stuck - the verdict rests on the absence of any progress between two
+// observations, not on the waiting time. A call that is slow but alive is simply waited for.
+func (n *Node) prepareWatched(req *abci.RequestPrepareProposal) (*abci.ResponsePrepareProposal, error) {
+	type res struct {
+		pp  *abci.ResponsePrepareProposal
+		err error
+	}
+	done := make(chan res, 1)
+	go func() {
+		pp, err := n.App.PrepareProposal(req)
+		done <- res{pp, err}
+	}()
+	wait := 30 * time.Second
+	var last string
+	for {
+		select {
+		case r := <-done:
+			return r.pp, r.err
+		case <-time.After(wait):
+		}
+		cur := stacksMentioning("PrepareProposal")
+		if strings.Contains(cur, "[running]") || strings.Contains(cur, "[runnable]") || strings.Contains(cur, "[syscall]") {
+			last = "" // something is (or wants to be) on a processor: slow, not stuck
+			wait = 5 * time.Second
+			continue
+		}
+		if last != "" && cur == last {
+			return nil, &ErrStuck{Call: "PrepareProposal", Stacks: cur}
+		}
+		last = cur
+		wait = 5 * time.Second
+	}
+}
+
+// stacksMentioning renders the goroutines whose stack contains the marker: state and frames without addresses and
+// argument values, so that two renderings are equal exactly when nothing moved.
+func stacksMentioning(marker string) string {
+	buf := make([]byte, 8<<20)
+	buf = buf[:runtime.Stack(buf, true)]
+	var out []string
+	for _, g := range strings.Split(string(buf), "\n\n") {
+		if !strings.Contains(g, marker) || strings.Contains(g, "stacksMentioning") || strings.Contains(g, "prepareWatched(") && !strings.Contains(g, "App.PrepareProposal") && !strings.Contains(g, "BaseApp).PrepareProposal") {
+			continue
+		}
+		var keep []string
+		for i, l := range strings.Split(g, "\n") {
+			if i == 0 {
+				// "goroutine 12 [semacquire, 1 minutes]:" -> state only
+				if a, b := strings.Index(l, "["), strings.Index(l, "]"); a >= 0 && b > a {
+					st := l[a+1 : b]
+					if c := strings.Index(st, ","); c >= 0 {
+						st = st[:c]
+					}
+					keep = append(keep, "["+st+"]")
+				}
+				continue
+			}
+			if strings.HasPrefix(l, "\t") {
+				continue // file:line +0x.. lines
+			}
+			if k := strings.Index(l, "("); k >= 0 {
+				l = l[:k]
+			}
+			keep = append(keep, l)
+		}
+		out = append(out, strings.Join(keep, " <- "))
+	}
+	sort.Strings(out)
+	return strings.Join(out, "\n")
 }
